@@ -4,8 +4,10 @@ A case is {"steps": [{"kind": K, "ups": [indices of earlier successfully-created
 "loop": None|"L1"|"L2"|"CUR"}, ...]}.  Steps whose constructor raises create no node; later steps index the
 list of nodes that exist.  `run_case` must be called from inside a running asyncio loop so that
 IOLoop.current() is well defined (the caller's loop)."""
+import atexit
 import os
 import queue
+import shutil
 import tempfile
 import threading
 
@@ -50,6 +52,7 @@ def _tmp():
     global _TMP
     if _TMP is None:
         _TMP = tempfile.mkdtemp(prefix="c19_")
+        atexit.register(shutil.rmtree, _TMP, True)
         with open(os.path.join(_TMP, "f.txt"), "w") as f:
             f.write("a\nb\n")
     return _TMP
